@@ -23,16 +23,21 @@ namespace nmtools::index
         }
 
         for (size_t i=0; i<(size_t)dim; i++) {
+            // negative axis counts from the last axis
+            [[maybe_unused]] auto is_axis = [&](const auto ii){
+                auto axis = (nm_index_t)ii;
+                if (axis < 0) {
+                    axis += (nm_index_t)dim;
+                }
+                return (size_t)axis == i;
+            };
             if constexpr (meta::is_index_array_v<axes_t>) {
                 auto in_axis = static_cast<bool>(
-                    index::count([&](const auto ii){
-                        using common_t = meta::promote_index_t<decltype(ii),size_t>;
-                        return (common_t)ii == (common_t)i;
-                    }, axes)
+                    index::count(is_axis, axes)
                 );
                 nmtools::get<2>(at(result,i)) = in_axis ? -1 : 1;
             } else if constexpr (meta::is_index_v<axes_t>) {
-                nmtools::get<2>(at(result,i)) = ((size_t)axes == i) ? -1 : 1;
+                nmtools::get<2>(at(result,i)) = is_axis(axes) ? -1 : 1;
             } else if constexpr (is_none_v<axes_t>) {
                 nmtools::get<2>(at(result,i)) = -1;
             }
